@@ -197,8 +197,10 @@ def const_lit(kind, fields):
     if kind == "c64": return f"{fields[0]}+{fields[1]}i"
     if kind == "r64": return f"{fields[0]}/{fields[1]}"
     if kind == "bool": return "true" if (fields[0] // 10) % 2 == 1 else "false"
-    if kind == "ustring": return f'"h\u00e9{fields[0]}w\u00f6"'
-    if kind == "string": return f'"s{fields[0]}"'
+    # RAGGED strings: the elements of one container differ in their byte length (a decoder that assumes one width per container,
+    # or counts characters for bytes, is wrong only then)
+    if kind == "ustring": return f'"h\u00e9{fields[0]}' + "\u00f6" * (fields[0] % 3) + 'w"'
+    if kind == "string": return f'"s{fields[0]}' + "x" * ((fields[0] * 2) % 5) + '"'
     if kind == "f64": return f"{fields[0]}.5"
     return render.scalar_lit(('num', kind, F(fields[0])))
 
